@@ -344,7 +344,25 @@ def gen_edge_case(rng):
     W, H = rng.choice([(40, 120), (120, 40), (30, 150), (150, 30), (60, 90), (90, 60), (64, 64)])
     sw = rng.choice([6, 10, 16, 24])
     dx, dy = 0, 0
-    kind = rng.below(9)
+    kind = rng.below(10)
+    if kind == 9:
+        # a long dashed two-point line that starts far outside the canvas and ends inside it (seeded change C13-9): the
+        # dash phase is a function of user-space length and must not depend on where the canvas cuts the line
+        W, H = rng.choice([(100, 100), (120, 60), (60, 120)])
+        far = rng.choice([300, 700, 2000])
+        ex, ey = 20 + rng.below(W - 40), 20 + rng.below(H - 40)
+        side = rng.below(4)
+        sx, sy = [(-far, ey + rng.below(21) - 10), (W + far, ey + rng.below(21) - 10), (ex + rng.below(21) - 10, -far), (ex + rng.below(21) - 10, H + far)][side]
+        pts = (sx, sy, ex, ey) if rng.below(2) else (ex, ey, sx, sy)
+        da = rng.choice(['7 5', '12 4 3 4', '20', '3 9', '15.5 6.25'])
+        body = ('<path d="M %s %s L %s %s" fill="none" stroke="%s" stroke-width="%s" stroke-dasharray="%s" stroke-dashoffset="%s" stroke-linecap="%s"/>'
+                % (pts + (rng.choice(COLORS), rng.choice([2, 4, 6]), da, rng.choice(['0', '3.5', '-11', '40']), rng.choice(CAPS))))
+        if rng.below(3) == 0:
+            body = '<g transform="scale(%s)">%s</g>' % (rng.choice([0.5, 1.5]), body)
+        dx, dy = rng.below(47) - 23, rng.below(47) - 23
+        if dx == dy:
+            dy += 1
+        return ('<svg %s width="%d" height="%d">%s</svg>' % (NS, W, H, body)), "native:%s:0:0" % rng.choice([1, 2, 2, 3]), dx, dy
     if kind == 8:
         # sharp miter tip: drawn while the outline is partly on the canvas, must stay when the shift moves the outline out
         doc, W, H, rot = gen_miter_doc(rng)
@@ -444,6 +462,42 @@ def gen_crisp_case(rng, W, H, kind):
         W, H = max(W, 70), max(H, 70)
     doc = '<svg %s width="%d" height="%d">%s</svg>' % (NS, W, H, body)
     return doc, "native:%s:0:0" % scale, dx, dy
+
+
+def gen_dot_doc(rng):
+    """zero-length subpaths (all at one point) made visible by round / square caps, inside a child group that survives as a
+    group (id / transform / opacity) under the group that gets isolated, not covered by sibling content (seeded change C14-11)"""
+    W = H = 100
+    sw = rng.choice([10, 16, 24])
+    cap = rng.choice(['round', 'square'])
+    x, y = rng.below(30), rng.below(30)
+    d = rng.choice(['M %d %d L %d %d', 'M %d %d h 0', 'M %d %d L %d %d M %d %d L %d %d', 'M %d %d z'])
+    d = d.replace('%d %d', '%d %d' % (x, y))
+    keep = rng.choice(['id="dots"', 'transform="translate(%d %d)"' % (40 + rng.below(20), 40 + rng.below(20)), 'opacity="0.8" transform="translate(50 50)"',
+                       'id="d" transform="translate(55 45) rotate(%d)"' % rng.below(60)])
+    inner = '<g %s><path d="%s" fill="none" stroke="%s" stroke-width="%d" stroke-linecap="%s"/></g>' % (keep, d, rng.choice(COLORS), sw, cap)
+    if rng.below(2):
+        inner = '<g id="outer">%s</g>' % inner
+    sib = rng.choice(['', '<rect x="2" y="2" width="6" height="6" fill="#111"/>'])
+    return '<svg %s width="%d" height="%d"><g>%s%s</g></svg>' % (NS, W, H, sib, inner)
+
+
+def gen_tiny_doc(rng):
+    """content whose device size is sub-pixel .. 3 px (at root scale 0.5 / 1): a layer must not make it vanish (seeded change C14-9)"""
+    size = rng.choice([0.6, 1.0, 1.6, 1.8, 2.5, 4.0, 6.0])
+    x, y = 10 + rng.uniform(0, 20), 10 + rng.uniform(0, 20)
+    if rng.below(3) == 0:
+        x, y = round(x), round(y)
+    k = rng.below(3)
+    col = rng.choice(['#111', '#d22', '#22d'])
+    if k == 0:
+        shape = '<rect x="%s" y="%s" width="%s" height="%s" fill="%s"/>' % (fnum(x), fnum(y), fnum(size), fnum(size * rng.choice([1, 0.7])), col)
+    elif k == 1:
+        shape = '<circle cx="%s" cy="%s" r="%s" fill="%s"/>' % (fnum(x), fnum(y), fnum(size / 2), col)
+    else:
+        shape = '<path d="M %s %s l %s %s" stroke="%s" stroke-width="%s" stroke-linecap="round"/>' % (fnum(x), fnum(y), fnum(size / 3), fnum(size / 4), col, fnum(size / 2))
+    grp = rng.choice(['', ' transform="translate(0.3 0.2)"', ' id="t"'])
+    return '<svg %s width="40" height="40"><g%s>%s</g></svg>' % (NS, grp, shape)
 
 
 def gen_miter_doc(rng):
